@@ -1123,6 +1123,22 @@ pub fn generate(family: &str, seed: u64, count: usize, emit: &mut dyn FnMut(Stri
                     }
                 }
             }
+            // part of a multi-byte sequence written raw and the rest as numeric escapes (hex, octal), both ways round:
+            // the text is not valid UTF-8 although the bytes the string denotes may be
+            for sq in seqs {
+                if sq.len() < 2 { continue; }
+                for j in 1..sq.len() {
+                    for (style, raw_first) in [(0, true), (1, true), (0, false), (1, false)] {
+                        let esc = |bs: &[u8]| -> Vec<u8> { bs.iter().flat_map(|b| if style == 0 { format!("\\x{:02x}", b).into_bytes() } else { format!("\\{:o}", b).into_bytes() }).collect() };
+                        let mid: Vec<u8> = if raw_first { [sq[..j].to_vec(), esc(&sq[j..])].concat() } else { [esc(&sq[..j]), sq[j..].to_vec()].concat() };
+                        for (pre, post) in [(&b"\""[..], &b"\""[..]), (b"\"\xce\xbb", b"\\ z\"")] {
+                            let t = [pre.to_vec(), mid.clone(), post.to_vec()].concat();
+                            for ro in [R_DEFAULT, R_ELISP] { emit(parse_op("b", ro, "r:v:4", &t)); }
+                            if j == 1 && style == 0 { emit(parse_op("i1", R_ELISP, "r:d:4", &t)); }
+                        }
+                    }
+                }
+            }
             // an error that stops inside a multi-byte character, then more calls on the same parser (all sources), and
             // malformed escapes followed by more data read through ONE kept iterator object
             for text in ["#é x", "\"\\é\" y", "#\\xé z", "#né w", "?\\^é v", "(a #é) b", "#\\x4g b c", "\"\\x4z;\" b c", "a #\\x4g b c", "(\"\\xg;\") d e"] {
